@@ -114,6 +114,28 @@ def closure(units):
     return seen - set(units), assumed
 
 
+# Verus stand-ins whose contracts are proved by a KANI unit on the real crate (named in the stand-in's doc comment):
+# Verus unit -> Kani units it assumes
+KANI_ASSUMED = {
+    "worker_handles": ["server_counter"],     # worker.rs Counter::{inc, dec, total}
+    "worker_start": ["server_counter"],       # Counter::new / Clone
+    "worker": ["server_counter"],
+    "backpressure": ["server_counter", "availability"],
+    "accept": ["availability"],               # Availability bit set (all [u128; 4], all indices)
+    "tls_accept_native": ["utils_counter", "local_waker"],    # actix_utils::counter::{Counter, CounterGuard}
+    "tls_accept_openssl": ["utils_counter", "local_waker"],
+    "tls_accept_rustls": ["utils_counter", "local_waker"],
+    "local_channel": ["local_waker"],         # LocalWaker::{register, wake, take}
+}
+
+
+def kani_assumed(units):
+    out = set()
+    for u in units:
+        out.update(KANI_ASSUMED.get(u, ()))
+    return out
+
+
 if __name__ == "__main__":
     import sys
     for u in (sys.argv[1:] or all_units()):
